@@ -39,6 +39,8 @@ func init() {
 			}},
 		Rule{ID: "C17.i", Explain: "aliasing discipline: verifying a key proof leaves the proof and the structure unchanged - no function mutates in place a big.Int it reached through keyproof.ValidKeyProof / keyproof.ValidKeyProofStructure / keyproof.PedersenProof / keyproof.RangeProof / keyproof.Proof (math/big mutators write their receiver), except the tabled merge/refresh functions.",
 			Run: func(P *Program, R *Report) { inPlaceDisciplineRule(P, R, "C17.i", "keyproof.ValidKeyProof", "keyproof.ValidKeyProofStructure", "keyproof.PedersenProof", "keyproof.RangeProof", "keyproof.Proof") }},
+		Rule{ID: "C17.j", Explain: "range parameters: every range-proof structure built in keyproof (newPedersenRangeProofStructure calls and rangeProofStructure literals) has l1 = 0 and l2 = exactly one bit-length quantity (a bitlen parameter or field, or |N|) - never a widened expression; the four copies of the generator range structure in the prime proof (prover, fake prover, structure check, commitments) agree.",
+			Run: func(P *Program, R *Report) { rangeParametersRule(P, R) }},
 		Rule{ID: "C17.g", Explain: "CanProve tests the residue conditions and safe primality (C16.f).",
 			Run: func(P *Program, R *Report) { canProveRule(P, R, "C17.g") }},
 	)
@@ -904,4 +906,85 @@ func validKeyRejectionsRule(P *Program, R *Report) {
 	}
 	n := enumerateRejections(P, R, rule, kVKVerify, fn, classify)
 	R.decide(rule, kVKVerify+":rejections", "the rejecting branches were enumerated (>= 10)", n >= 10, fmt.Sprintf("%d", n), P.Pos(fn.Pos()))
+}
+
+func rangeParametersRule(P *Program, R *Report) {
+	rule := "C17.j"
+	sp := P.PkgByName["keyproof"]
+	if sp == nil {
+		R.und(rule, "keyproof", "package found", "", "")
+		return
+	}
+	n := 0
+	perFn := map[string][]string{}
+	check := func(fn *ssa.Function, pos token.Pos, l1, l2 ssa.Value, what string) {
+		n++
+		c := fmt.Sprintf("%s:%s#%d", FuncKey(fn), what, len(perFn[FuncKey(fn)]))
+		z, isZ := constInt(l1)
+		a, okA := affineOf(l2)
+		single := okA && a.C == 0 && len(a.S) == 1
+		if single {
+			for _, k := range a.S {
+				single = k == 1
+			}
+		}
+		perFn[FuncKey(fn)] = append(perFn[FuncKey(fn)], a.String())
+		R.decide(rule, c, "l1 = 0 and l2 is one plain bit-length quantity", isZ && z == 0 && single, fmt.Sprintf("l1=%s l2=%s", desc(l1), desc(l2)), P.Pos(pos))
+	}
+	for _, fn := range P.AllFuncs {
+		if fn.Pkg != sp || fn.Blocks == nil || strings.HasSuffix(fn.Name(), "_test") {
+			continue
+		}
+		if fn.Name() == "newPedersenRangeProofStructure" {
+			continue // forwards its own parameters
+		}
+		lits := map[ssa.Value]map[string]ssa.Value{}
+		var order []ssa.Value
+		allInstrs(fn, func(i ssa.Instruction) {
+			switch x := i.(type) {
+			case *ssa.Call:
+				if calleeName(x) == "keyproof.newPedersenRangeProofStructure" {
+					check(fn, x.Pos(), x.Call.Args[1], x.Call.Args[2], "range-structure")
+				}
+			case *ssa.Store:
+				fa, ok := x.Addr.(*ssa.FieldAddr)
+				if !ok || typeKey(fa.X.Type()) != "keyproof.rangeProofStructure" {
+					return
+				}
+				f := fieldName(fa.X.Type(), fa.Field)
+				if f != "l1" && f != "l2" {
+					return
+				}
+				if lits[fa.X] == nil {
+					lits[fa.X] = map[string]ssa.Value{}
+					order = append(order, fa.X)
+				}
+				lits[fa.X][f] = x.Val
+			}
+		})
+		for _, o := range order {
+			if lits[o]["l1"] != nil && lits[o]["l2"] != nil {
+				check(fn, o.Pos(), lits[o]["l1"], lits[o]["l2"], "range-literal")
+			}
+		}
+	}
+	R.decide(rule, "keyproof:range-structures", "range-proof structure constructions were found (>= 12)", n >= 12, fmt.Sprintf("%d", n), "")
+	// the copies in the prime proof agree
+	var gen []string
+	for k, v := range perFn {
+		if strings.HasPrefix(k, "keyproof.(*primeProofStructure).") {
+			for _, s := range v {
+				if strings.Contains(s, "primeProofStructure>.bitlen") {
+					gen = append(gen, s)
+				}
+			}
+		}
+	}
+	same := len(gen) >= 4
+	for _, g := range gen {
+		if g != gen[0] {
+			same = false
+		}
+	}
+	R.decide(rule, "keyproof.primeProofStructure:generator-range-copies", "the prover's, the simulator's and the verifier's copies of the generator range structure use the same l2", same, strings.Join(gen, " | "), "")
 }
